@@ -2,12 +2,19 @@
   C07/C08 (lexer half, tokens), part 4: the token kinds of the experiment language, their
   lexeme languages (`lexemeOk`), their "cannot fuse with what follows" conditions (`sepOk`),
   and the one-token step of the lexer (`token_firstMatch`, `tokenStep`).
+
+  The generated rule table is consulted in exactly two theorems, both position-free and both
+  evaluated on the actual table by `decide +kernel`:
+  * `TKind.rule_found`: the rule called `k.name` (looked up by name) is the expected rule;
+  * `TKind.pre_ok`: every rule that stands before it in the table passes `k.preOk`.
+  Harmless reorderings of the table leave both true; reorderings that change the lexer's
+  behaviour on some token make `TKind.pre_ok` fail.
 -/
 import Pyab.Proofs.TokenRules
 namespace Pyab.TokenLex
 open Pyab Pyab.Re Pyab.Trivia
 
-/-- the 30 token kinds of lexer state 0, in rule order -/
+/-- the 30 token kinds of lexer state 0 -/
 inductive TKind where
   | lparen | rparen | minus | comma | colon | lbrace | rbrace
   | eq | ge | le | gt | lt | ne
@@ -16,17 +23,24 @@ inductive TKind where
   | id | float | int | string
 deriving DecidableEq, Repr
 
-/-- position of the kind's rule in `Generated.lexState0.rules` -/
-def TKind.idx : TKind → Nat
-  | .lparen => 0 | .rparen => 1 | .minus => 2 | .comma => 3 | .colon => 4 | .lbrace => 5
-  | .rbrace => 6 | .eq => 7 | .ge => 8 | .le => 9 | .gt => 10 | .lt => 11 | .ne => 12
-  | .kwIn => 13 | .kwNotIn => 14 | .kwNot => 15 | .kwDef => 16 | .kwSalt => 17
-  | .kwSplitters => 18 | .kwIf => 19 | .kwElif => 20 | .kwElse => 21 | .kwWeighted => 22
-  | .kwReturn => 23 | .kwAnd => 24 | .kwOr => 25 | .id => 26 | .float => 27 | .int => 28
-  | .string => 29
-
-/-- the extracted rule of the kind -/
-def TKind.rule (k : TKind) : LexRule := Generated.lexState0.rules[k.idx]!
+/-- the rule of the kind as the proofs expect it: its name, the shape of its regex, its action.
+    `TKind.rule_found` checks that the generated table contains exactly this rule under this
+    name — wherever it stands in the table. -/
+def TKind.rule : TKind → LexRule
+  | .lparen => litRule "LPAREN" '(' | .rparen => litRule "RPAREN" ')'
+  | .minus => litRule "MINUS" '-' | .comma => litRule "COMMA" ','
+  | .colon => litRule "COLON" ':' | .lbrace => litRule "LBRACE" '{'
+  | .rbrace => litRule "RBRACE" '}'
+  | .eq => lit2Rule "KW_EQ" '=' '=' | .ge => lit2Rule "KW_GE" '>' '='
+  | .le => lit2Rule "KW_LE" '<' '=' | .gt => litRule "KW_GT" '>' | .lt => litRule "KW_LT" '<'
+  | .ne => lit2Rule "KW_NE" '!' '='
+  | .kwIn => kwRule "KW_IN" wIn | .kwNotIn => notInRule | .kwNot => kwRule "KW_NOT" wNot
+  | .kwDef => kwRule "KW_DEF" wDef | .kwSalt => kwRule "KW_SALT" wSalt
+  | .kwSplitters => kwRule "KW_SPLITTERS" wSplitters | .kwIf => kwRule "KW_IF" wIf
+  | .kwElif => elifRule | .kwElse => kwRule "KW_ELSE" wElse
+  | .kwWeighted => kwRule "KW_WEIGHTED" wWeighted | .kwReturn => kwRule "KW_RETURN" wReturn
+  | .kwAnd => kwRule "KW_AND" wAnd | .kwOr => kwRule "KW_OR" wOr
+  | .id => idRule | .float => floatRule | .int => intRule | .string => strRule
 
 /-- the token name sly reports (the rule name) -/
 def TKind.name (k : TKind) : String := k.rule.name
@@ -40,8 +54,11 @@ def TKind.conv : TKind → Conv
 
 theorem TKind.rule_action (k : TKind) : k.rule.action = .emit k.conv := by cases k <;> rfl
 
-theorem TKind.rule_get (k : TKind) : Generated.lexState0.rules[k.idx]? = some k.rule := by
-  cases k <;> rfl
+/-- **table obligation (a)**: for every kind, the rule of that name in the generated table —
+    found by scanning the table for the name, not by position — is the expected rule (regex
+    shape and action) -/
+theorem TKind.rule_found (k : TKind) : ruleNamed k.name R0 = some k.rule := by
+  cases k <;> decide +kernel
 
 /-- the kinds with exactly one spelling -/
 def TKind.fixed : TKind → Option (List Char)
@@ -139,74 +156,59 @@ theorem strOk_split {l : List Char} (h : strOk l = true) :
     rw [List.dropLast_concat] at hbody
     exact ⟨q, ys, rfl, hq, fun x hx => (hbody x hx).1, fun x hx => (hbody x hx).2⟩
 
-/-! ### punctuation and operators -/
+/-! ### what the rules tried before a kind's rule must look like -/
 
-theorem fixed1 (i : Nat) {r : LexRule} {c : Char} (hr : Generated.lexState0.rules[i]? = some r)
-    (hre : r.re = .lit c.toNat)
-    (hpre : (Generated.lexState0.rules.take i).all (fun r' => !firstOk T r'.re c) = true)
-    (rest : List Char) (bound : Nat) (prev : Option Char) :
-    firstMatch T bound Generated.lexState0.rules prev ([c] ++ rest) = some (r, [c].length, rest) := by
-  apply fixed_firstMatch i hr (blocked_of_all hpre bound prev rest)
-  unfold matchPrefix
-  rw [hre, m_lit_hit]
-  rfl
+/-- what `sepOk` excludes after `not` / `else`: (minimal number of blanks, second word) -/
+def TKind.excl : TKind → Option (Nat × List Char)
+  | .kwNot => some (1, wIn)
+  | .kwElse => some (0, wIf)
+  | _ => none
 
-theorem fixed2 (i : Nat) {r : LexRule} {c d : Char}
-    (hr : Generated.lexState0.rules[i]? = some r)
-    (hre : r.re = .seq (.lit c.toNat) (.lit d.toNat))
-    (hpre : (Generated.lexState0.rules.take i).all (fun r' => !firstOk T r'.re c) = true)
-    (rest : List Char) (bound : Nat) (prev : Option Char) :
-    firstMatch T bound Generated.lexState0.rules prev ([c, d] ++ rest) =
-      some (r, [c, d].length, rest) := by
-  apply fixed_firstMatch i hr (blocked_of_all hpre bound prev (d :: rest))
-  unfold matchPrefix
-  rw [hre, m_seq_eq, m_lit_hit, m_lit_hit]
-  rfl
+/-- **the check a rule tried before the rule of kind `k` must pass** (so that it cannot match a
+    lexeme of kind `k` followed by a separator):
+    * punctuation, `== >= <= !=`, the two-word keywords: it cannot start with the kind's first
+      character;
+    * `>` / `<`: the same, or it is `>=` / `<=`;
+    * keywords and `ID`: `wordPreOk` — it cannot start with a letter or `_`, or is the
+      keyword rule of a different word (for `ID`: of a reserved word), or is a two-word rule
+      that the kind's separation condition rules out;
+    * floats: it cannot start with a digit; integers: the same, or it is the float rule;
+    * strings: it cannot start with a quote. -/
+def TKind.preOk (k : TKind) (r : LexRule) : Bool :=
+  match k with
+  | .lparen => !firstOk T r.re '(' | .rparen => !firstOk T r.re ')'
+  | .minus => !firstOk T r.re '-' | .comma => !firstOk T r.re ','
+  | .colon => !firstOk T r.re ':' | .lbrace => !firstOk T r.re '{'
+  | .rbrace => !firstOk T r.re '}'
+  | .eq => !firstOk T r.re '=' | .ge => !firstOk T r.re '>' | .le => !firstOk T r.re '<'
+  | .ne => !firstOk T r.re '!'
+  | .gt => !firstOk T r.re '>' || r.re == .seq (.lit '>'.toNat) (.lit 61)
+  | .lt => !firstOk T r.re '<' || r.re == .seq (.lit '<'.toNat) (.lit 61)
+  | .kwNotIn => !firstOk T r.re 'n'
+  | .kwElif => !firstOk T r.re 'e'
+  | .kwIn => wordPreOk (fun w' => w' != wIn) none r.re
+  | .kwNot => wordPreOk (fun w' => w' != wNot) (some (1, wIn)) r.re
+  | .kwDef => wordPreOk (fun w' => w' != wDef) none r.re
+  | .kwSalt => wordPreOk (fun w' => w' != wSalt) none r.re
+  | .kwSplitters => wordPreOk (fun w' => w' != wSplitters) none r.re
+  | .kwIf => wordPreOk (fun w' => w' != wIf) none r.re
+  | .kwElse => wordPreOk (fun w' => w' != wElse) (some (0, wIf)) r.re
+  | .kwWeighted => wordPreOk (fun w' => w' != wWeighted) none r.re
+  | .kwReturn => wordPreOk (fun w' => w' != wReturn) none r.re
+  | .kwAnd => wordPreOk (fun w' => w' != wAnd) none r.re
+  | .kwOr => wordPreOk (fun w' => w' != wOr) none r.re
+  | .id => wordPreOk (fun w' => reserved.contains w') none r.re
+  | .float => digitBlocked r.re
+  | .int => r.re == floatRule.re || digitBlocked r.re
+  | .string => !firstOk T r.re '"' && !firstOk T r.re '\''
 
-/-- `c=` does not match `c` followed by something else than `=` -/
-theorem op2_miss {c : Char} {rest : List Char} (h : (rest.head? != some '=') = true)
-    (bound : Nat) (prev : Option Char) :
-    matchPrefix T bound (.seq (.lit c.toNat) (.lit 61)) prev (c :: rest) = none := by
-  unfold matchPrefix
-  rw [m_seq_eq, m_lit_hit]
-  cases rest with
-  | nil => exact m_lit_nil _ _ _ _ _ _
-  | cons x r =>
-    apply m_lit_miss
-    intro hx
-    have : x = '=' := by rw [← Char.ofNat_toNat x, hx]
-    subst this
-    simp at h
-
-theorem gt_firstMatch {rest : List Char} (h : (rest.head? != some '=') = true) (bound : Nat)
-    (prev : Option Char) :
-    firstMatch T bound Generated.lexState0.rules prev (['>'] ++ rest) =
-      some (TKind.gt.rule, 1, rest) := by
-  have hrules : Generated.lexState0.rules = Generated.lexState0.rules.take 8 ++
-      (TKind.ge.rule :: TKind.le.rule :: TKind.gt.rule :: Generated.lexState0.rules.drop 11) := rfl
-  rw [hrules]
-  show firstMatch T bound _ prev ('>' :: rest) = _
-  rw [firstMatch_append_none (blocked_of_all (by decide +kernel) bound prev rest),
-    firstMatch_cons_none (r := TKind.ge.rule) (op2_miss (c := '>') h bound prev),
-    firstMatch_cons_none (r := TKind.le.rule) (matchPrefix_none_of_firstOk (by decide +kernel))]
-  apply firstMatch_cons_some (r := TKind.gt.rule)
-  unfold matchPrefix
-  exact m_lit_hit T bound '>' _ _ _ _
-
-theorem lt_firstMatch {rest : List Char} (h : (rest.head? != some '=') = true) (bound : Nat)
-    (prev : Option Char) :
-    firstMatch T bound Generated.lexState0.rules prev (['<'] ++ rest) =
-      some (TKind.lt.rule, 1, rest) := by
-  have hrules : Generated.lexState0.rules = Generated.lexState0.rules.take 9 ++
-      (TKind.le.rule :: TKind.gt.rule :: TKind.lt.rule :: Generated.lexState0.rules.drop 12) := rfl
-  rw [hrules]
-  show firstMatch T bound _ prev ('<' :: rest) = _
-  rw [firstMatch_append_none (blocked_of_all (by decide +kernel) bound prev rest),
-    firstMatch_cons_none (r := TKind.le.rule) (op2_miss (c := '<') h bound prev),
-    firstMatch_cons_none (r := TKind.gt.rule) (matchPrefix_none_of_firstOk (by decide +kernel))]
-  apply firstMatch_cons_some (r := TKind.lt.rule)
-  unfold matchPrefix
-  exact m_lit_hit T bound '<' _ _ _ _
+/-- **table obligation (b)**: for every kind, every rule that precedes the kind's rule in the
+    generated table (found by scanning the table up to the rule's name) passes the kind's check.
+    Where an order dependence is real (keywords before `ID`, `>=` before `>`, `not in` before
+    `not`, `else if` before `else`, floats before integers) a table that violates it fails
+    here. -/
+theorem TKind.pre_ok (k : TKind) : (rulesBefore k.name R0).all k.preOk = true := by
+  cases k <;> decide +kernel
 
 /-! ### the one-token step -/
 
@@ -219,12 +221,23 @@ theorem fixed_of_ok {k : TKind} {l w : List Char} (hf : k.fixed = some w)
   exact (by simpa using this : w = l).symm
 
 set_option hygiene false in
-local macro "kw_case " w:term : tactic => `(tactic| (
+local macro "kw_case " k:term ", " w:term : tactic => `(tactic| (
   have hlw := fixed_of_ok (w := $w) rfl (by decide) hl
   subst hlw
-  have := word_firstMatch (lexeme := $w) (rest := rest) (by decide +kernel) hs
-    (fun h => absurd h.1 (by decide)) (fun h => absurd h.1 (by decide)) (by decide) hb prev
-  exact this))
+  exact kw_firstMatch (TKind.rule_found $k) rfl (by decide +kernel) (excl := none)
+    (TKind.pre_ok $k) hs (fun _ _ h => by cases h) bound prev))
+
+set_option hygiene false in
+local macro "fixed1_case " k:term ", " w:term : tactic => `(tactic| (
+  have hlw := fixed_of_ok (w := $w) rfl (by decide) hl
+  subst hlw
+  exact fixed1 (TKind.rule_found $k) rfl (TKind.pre_ok $k) rest bound prev))
+
+set_option hygiene false in
+local macro "fixed2_case " k:term ", " w:term : tactic => `(tactic| (
+  have hlw := fixed_of_ok (w := $w) rfl (by decide) hl
+  subst hlw
+  exact fixed2 (TKind.rule_found $k) rfl (TKind.pre_ok $k) rest bound prev))
 
 /-- **the winning rule**: on `lexeme ++ rest`, with `lexeme` in the lexeme language of kind `k`
     and `rest` satisfying the kind's separation condition, the first matching rule of lexer
@@ -234,131 +247,87 @@ theorem token_firstMatch (k : TKind) {lexeme rest : List Char} (hl : lexemeOk k 
     firstMatch T bound Generated.lexState0.rules prev (lexeme ++ rest) =
       some (k.rule, lexeme.length, rest) := by
   cases k with
-  | lparen =>
-    have hlw := fixed_of_ok (w := ['(']) rfl (by decide) hl
-    subst hlw
-    exact fixed1 0 rfl rfl (by decide +kernel) rest bound prev
-  | rparen =>
-    have hlw := fixed_of_ok (w := [')']) rfl (by decide) hl
-    subst hlw
-    exact fixed1 1 rfl rfl (by decide +kernel) rest bound prev
-  | minus =>
-    have hlw := fixed_of_ok (w := ['-']) rfl (by decide) hl
-    subst hlw
-    exact fixed1 2 rfl rfl (by decide +kernel) rest bound prev
-  | comma =>
-    have hlw := fixed_of_ok (w := [',']) rfl (by decide) hl
-    subst hlw
-    exact fixed1 3 rfl rfl (by decide +kernel) rest bound prev
-  | colon =>
-    have hlw := fixed_of_ok (w := [':']) rfl (by decide) hl
-    subst hlw
-    exact fixed1 4 rfl rfl (by decide +kernel) rest bound prev
-  | lbrace =>
-    have hlw := fixed_of_ok (w := ['{']) rfl (by decide) hl
-    subst hlw
-    exact fixed1 5 rfl rfl (by decide +kernel) rest bound prev
-  | rbrace =>
-    have hlw := fixed_of_ok (w := ['}']) rfl (by decide) hl
-    subst hlw
-    exact fixed1 6 rfl rfl (by decide +kernel) rest bound prev
-  | eq =>
-    have hlw := fixed_of_ok (w := ['=', '=']) rfl (by decide) hl
-    subst hlw
-    exact fixed2 7 rfl rfl (by decide +kernel) rest bound prev
-  | ge =>
-    have hlw := fixed_of_ok (w := ['>', '=']) rfl (by decide) hl
-    subst hlw
-    exact fixed2 8 rfl rfl (by decide +kernel) rest bound prev
-  | le =>
-    have hlw := fixed_of_ok (w := ['<', '=']) rfl (by decide) hl
-    subst hlw
-    exact fixed2 9 rfl rfl (by decide +kernel) rest bound prev
+  | lparen => fixed1_case .lparen, ['(']
+  | rparen => fixed1_case .rparen, [')']
+  | minus => fixed1_case .minus, ['-']
+  | comma => fixed1_case .comma, [',']
+  | colon => fixed1_case .colon, [':']
+  | lbrace => fixed1_case .lbrace, ['{']
+  | rbrace => fixed1_case .rbrace, ['}']
+  | eq => fixed2_case .eq, ['=', '=']
+  | ge => fixed2_case .ge, ['>', '=']
+  | le => fixed2_case .le, ['<', '=']
+  | ne => fixed2_case .ne, ['!', '=']
   | gt =>
     have hlw := fixed_of_ok (w := ['>']) rfl (by decide) hl
     subst hlw
-    exact gt_firstMatch hs bound prev
+    exact op1_firstMatch (TKind.rule_found .gt) rfl (TKind.pre_ok .gt) hs bound prev
   | lt =>
     have hlw := fixed_of_ok (w := ['<']) rfl (by decide) hl
     subst hlw
-    exact lt_firstMatch hs bound prev
-  | ne =>
-    have hlw := fixed_of_ok (w := ['!', '=']) rfl (by decide) hl
-    subst hlw
-    exact fixed2 12 rfl rfl (by decide +kernel) rest bound prev
-  | kwIn => kw_case wIn
-  | kwDef => kw_case wDef
-  | kwSalt => kw_case wSalt
-  | kwSplitters => kw_case wSplitters
-  | kwIf => kw_case wIf
-  | kwWeighted => kw_case wWeighted
-  | kwReturn => kw_case wReturn
-  | kwAnd => kw_case wAnd
-  | kwOr => kw_case wOr
+    exact op1_firstMatch (TKind.rule_found .lt) rfl (TKind.pre_ok .lt) hs bound prev
+  | kwIn => kw_case .kwIn, wIn
+  | kwDef => kw_case .kwDef, wDef
+  | kwSalt => kw_case .kwSalt, wSalt
+  | kwSplitters => kw_case .kwSplitters, wSplitters
+  | kwIf => kw_case .kwIf, wIf
+  | kwWeighted => kw_case .kwWeighted, wWeighted
+  | kwReturn => kw_case .kwReturn, wReturn
+  | kwAnd => kw_case .kwAnd, wAnd
+  | kwOr => kw_case .kwOr, wOr
   | kwNot =>
     have hlw := fixed_of_ok (w := wNot) rfl (by decide) hl
     subst hlw
     simp only [sepOk, Bool.and_eq_true, Bool.not_eq_true'] at hs
-    have := word_firstMatch (lexeme := wNot) (rest := rest) (by decide +kernel) hs.1
-      (fun h => by rw [hs.2] at h; cases h.2) (fun h => absurd h.1 (by decide)) (by decide) hb prev
-    exact this
+    exact kw_firstMatch (TKind.rule_found .kwNot) rfl (by decide +kernel)
+      (excl := some (1, wIn)) (TKind.pre_ok .kwNot) hs.1
+      (fun _ _ h => by cases h; exact hs.2) bound prev
   | kwElse =>
     have hlw := fixed_of_ok (w := wElse) rfl (by decide) hl
     subst hlw
     simp only [sepOk, Bool.and_eq_true, Bool.not_eq_true'] at hs
-    have := word_firstMatch (lexeme := wElse) (rest := rest) (by decide +kernel) hs.1
-      (fun h => absurd h.1 (by decide)) (fun h => by rw [hs.2] at h; cases h.2) (by decide) hb prev
-    exact this
+    exact kw_firstMatch (TKind.rule_found .kwElse) rfl (by decide +kernel)
+      (excl := some (0, wIf)) (TKind.pre_ok .kwElse) hs.1
+      (fun _ _ h => by cases h; exact hs.2) bound prev
   | kwNotIn =>
     obtain ⟨ws, rfl, hws, hmin⟩ := spacedOk_split hl
-    have hne : ws ≠ [] := by
-      intro h
-      rw [h] at hmin
-      simp at hmin
     have hlen : ws.length ≤ bound := by
       simp only [List.length_append] at hb
       omega
-    exact notIn_firstMatch hws hne hs hlen prev
+    exact spaced_firstMatch (c := 'n') (w1' := ['o', 't']) (w2 := wIn) (min := 1)
+      (TKind.rule_found .kwNotIn) rfl (TKind.pre_ok .kwNotIn) (by decide) (by decide +kernel)
+      hws hmin hs hlen prev
   | kwElif =>
-    obtain ⟨ws, rfl, hws, _⟩ := spacedOk_split hl
+    obtain ⟨ws, rfl, hws, hmin⟩ := spacedOk_split hl
     have hlen : ws.length ≤ bound := by
       simp only [List.length_append] at hb
       omega
-    exact elif_firstMatch hws hs hlen prev
+    exact spaced_firstMatch (c := 'e') (w1' := ['l', 's', 'e']) (w2 := wIf) (min := 0)
+      (TKind.rule_found .kwElif) rfl (TKind.pre_ok .kwElif) (by decide) (by decide +kernel)
+      hws hmin hs hlen prev
   | id =>
     simp only [lexemeOk, Bool.and_eq_true, Bool.not_eq_true'] at hl
     obtain ⟨hwl, hres⟩ := hl
-    have hnm : ∀ w ∈ reserved, lexeme ≠ w := by
-      intro w hw heq
-      subst heq
-      rw [List.contains_eq_mem, decide_eq_false_iff_not] at hres
-      exact hres hw
-    have hw := word_firstMatch hwl hs
-      (fun h => hnm wNot (by decide) h.1) (fun h => hnm wElse (by decide) h.1)
-      (hnm (wElse ++ wIf) (by decide)) hb prev
-    rw [hw]
-    have : wordRule lexeme = idRule := by
-      simp only [wordRule, if_neg (hnm wIn (by decide)), if_neg (hnm wNot (by decide)),
-        if_neg (hnm wDef (by decide)), if_neg (hnm wSalt (by decide)),
-        if_neg (hnm wSplitters (by decide)), if_neg (hnm wIf (by decide)),
-        if_neg (hnm wElse (by decide)), if_neg (hnm wWeighted (by decide)),
-        if_neg (hnm wReturn (by decide)), if_neg (hnm wAnd (by decide)),
-        if_neg (hnm wOr (by decide))]
-    rw [this]
-    rfl
+    refine id_firstMatch (TKind.rule_found .id) rfl (TKind.pre_ok .id) hwl hs ?_ hb prev
+    intro w hw heq
+    subst heq
+    rw [hres] at hw
+    cases hw
   | float =>
     obtain ⟨ip, fp, rfl, hip, hipd, hfp, hfpd⟩ := floatOk_split hl
-    exact float_firstMatch hip hipd hfp hfpd hs hb prev
+    exact float_firstMatch (TKind.rule_found .float) rfl (TKind.pre_ok .float) hip hipd hfp hfpd
+      hs hb prev
   | int =>
     simp only [lexemeOk, Bool.and_eq_true, Bool.not_eq_true', List.isEmpty_eq_false_iff,
       List.all_eq_true] at hl
-    exact int_firstMatch hl.1 hl.2 hs hb prev
+    exact int_firstMatch (TKind.rule_found .int) rfl (TKind.pre_ok .int) hl.1 hl.2 hs hb prev
   | string =>
     obtain ⟨q, body, rfl, hq, hbq, hbn⟩ := strOk_split hl
     have hlen : body.length ≤ bound := by
       simp only [List.length_cons, List.length_append] at hb
       omega
-    have := str_firstMatch hq hbq hbn (rest := rest) hlen prev
+    have := str_firstMatch (TKind.rule_found .string) rfl (TKind.pre_ok .string) hq hbq hbn
+      (rest := rest) hlen prev
     have e1 : (q :: (body ++ [q])) ++ rest = q :: (body ++ q :: rest) := by simp
     have e2 : (q :: (body ++ [q])).length = body.length + 2 := by simp
     rw [e1, e2]
